@@ -585,11 +585,21 @@ impl RenderTable {
             let mut colno = 0usize;
             for cell in row.cells() {
                 let cellsize = cell.get_size_estimate();
+                // Spread the cell over the columns it spans, the remainder
+                // going to the first ones, so that a small cell is not
+                // rounded down to nothing in every column (and the whole
+                // table to an estimate of 0, which gets it no room at all
+                // inside an outer table).
+                let (size, size_rem) = (cellsize.size / cell.colspan, cellsize.size % cell.colspan);
+                let (min_width, min_rem) = (
+                    cellsize.min_width / cell.colspan,
+                    cellsize.min_width % cell.colspan,
+                );
                 for colnum in 0..cell.colspan {
-                    sizes[colno + colnum].size += cellsize.size / cell.colspan;
+                    sizes[colno + colnum].size += size + usize::from(colnum < size_rem);
                     sizes[colno + colnum].min_width = max(
                         sizes[colno + colnum].min_width,
-                        cellsize.min_width / cell.colspan,
+                        min_width + usize::from(colnum < min_rem),
                     );
                 }
                 colno += cell.colspan;
